@@ -433,7 +433,7 @@ func checkHistory(run *core.Run, nProbes, nHistories, histLen int) {
 }
 
 func runC13(run *core.Run) {
-	run.Rule = "(1) input-snapshot monitor; object-reuse monitor (one builder value and one model value edited in place between calls: every answer must equal a fresh builder on a fresh copy; same for printer and plain graph) (deep clone + element identity before, compared after) around every entry point taking a model or a file slice, on generated models - half of them modular with the type list not in module order - and G3 file sets; (2) go test -race workload: rounds of 12-16 goroutines released by a barrier on a fresh clone of a shared input per round (render one shared unsorted modular model; render + both graph builders + utils on one model; parse distinct texts; parse one text; merge one file slice; validators and fga.mod), results compared with the sequential baseline, overlapping call pairs counted, report blocks of the race log de-duplicated by outermost repository frames; (3) history: per probe input the hash of everything it yields (model, DSL, weighted graph, DOT) must be equal in a cold process, after the other probes, in reverse order and after arbitrary earlier inputs; non-trivial = snapshotted model / file set; distinct by input"
+	run.Rule = "(1) input-snapshot monitor; object-reuse monitor (one builder value and one model value edited in place between calls: every answer must equal a fresh builder on a fresh copy; same for printer and plain graph) (deep clone + element identity before, compared after) around every entry point taking a model or a file slice, on generated models (also G1d models with missing optional parts) - half of them modular with the type list not in module order - and G3 file sets; (2) go test -race workload: rounds of 12-16 goroutines released by a barrier on a fresh clone of a shared input per round (render one shared unsorted modular model; render + both graph builders + utils on one model; parse distinct texts; parse one text; merge one file slice; validators and fga.mod), results compared with the sequential baseline, overlapping call pairs counted, report blocks of the race log de-duplicated by outermost repository frames; (3) history: per probe input the hash of everything it yields (model, DSL, weighted graph, DOT) must be equal in a cold process, after the other probes, in reverse order and after arbitrary earlier inputs; non-trivial = snapshotted model / file set; distinct by input"
 	n := run.N(6000, 100000)
 	core.Parallel(n, func(i int) {
 		r := run.Rng("c13", i)
@@ -452,6 +452,18 @@ func runC13(run *core.Run) {
 		if i%2 == 1 {
 			checkObjectReuse(run, r, m) // edits m in place: last use of m
 		}
+	})
+	// models with missing optional parts (G1d): most calls answer with an error - the argument is still not theirs to touch
+	nd := run.N(3000, 50000)
+	core.Parallel(nd, func(i int) {
+		r := run.Rng("c13-degenerate", i)
+		m := proto.Clone(gen.Model(r, gen.ModelOpt{MaxObj: 3, Conditions: true})).(*openfgav1.AuthorizationModel)
+		gen.Degenerate(r, m)
+		if i%3 == 0 {
+			makeModularUnsorted(r, m)
+		}
+		checkPurity(run, m)
+		run.Count("degenerate_models_snapshotted", 1)
 	})
 	nf := run.N(1500, 30000)
 	core.Parallel(nf, func(i int) {
